@@ -174,10 +174,18 @@ extern void* yk_thread_fn[4];
 extern uint32_t yk_threads_started;
 static inline void yk_thread_start(void* thr, void* state) { if (yk_threads_started < 4) yk_thread_fn[yk_threads_started] = state; yk_threads_started++; *(uint64_t*)thr = yk_threads_started; }
 void yk_thread_join(void* thr);
+/* ---- watch: count hooked STOREs to one address (single-word publication, C19/C17) */
+extern const void* yk_watch_ptr;
+extern uint32_t yk_watch_stores, yk_watch_loads;
+static inline void yk_watch(const void* p) { yk_watch_ptr = p; yk_watch_stores = 0; yk_watch_loads = 0; }
+static inline uint32_t yk_watch_store_count(void) { return yk_watch_stores; }
+static inline uint32_t yk_watch_load_count(void) { return yk_watch_loads; }
+static inline void yk_watch_note(int kind, const void* p) { if (p != 0 && p == yk_watch_ptr) { if (kind == 1) yk_watch_stores++; else if (kind == 0) yk_watch_loads++; } }
+static inline void yakushima_verif_event(int ev, const void* p, uint64_t tag) { (void)ev; (void)p; (void)tag; }
 #ifndef YK_SEQ
 /* plain mode: a single thread must never wait */
 static inline void yk_pause(void) { YK_ASSERT(0, "fault: single thread spins (pause reached)"); YK_ASSUME(0); }
 static inline void yk_sleep(void) { }
-static inline void yk_hook(int kind, const void* p) { (void)p; if (kind == 2) { YK_ASSERT(0, "fault: single thread spins (SPIN hook)"); YK_ASSUME(0); } }
+static inline void yk_hook(int kind, const void* p) { yk_watch_note(kind, p); if (kind == 2) { YK_ASSERT(0, "fault: single thread spins (SPIN hook)"); YK_ASSUME(0); } }
 #endif
 #endif
